@@ -237,25 +237,29 @@ pub fn main(args: &[String]) -> i32 {
     let values: Vec<f64> = if tier == "thorough" { (0..=22).map(|i| i as f64 * 0.5).collect() } else { vec![0.0, 3.5, 7.0, 9.5, 10.0, 11.0] };
     for mode in ["osu", "taiko", "catch", "mania"] {
         let (map, text) = &maps.by_mode[mode][0];
-        for &r in &rates {
+        for (&r, core) in rates.iter().flat_map(|r| [(r, false), (r, true)]) {
+            // core = false: DoubleTime / HalfTime, core = true: Nightcore / Daycore (same rate semantics, separate mod types)
             let lazer_mods: rosu_mods::GameMods = {
                 let mut m = rosu_mods::GameMods::new();
                 let sc = Some(r);
-                if r >= 1.0 {
-                    m.insert(match mode {
-                        "osu" => GameMod::DoubleTimeOsu(gm::DoubleTimeOsu { speed_change: sc, ..Default::default() }),
-                        "taiko" => GameMod::DoubleTimeTaiko(gm::DoubleTimeTaiko { speed_change: sc, ..Default::default() }),
-                        "catch" => GameMod::DoubleTimeCatch(gm::DoubleTimeCatch { speed_change: sc, ..Default::default() }),
-                        _ => GameMod::DoubleTimeMania(gm::DoubleTimeMania { speed_change: sc, ..Default::default() }),
-                    });
-                } else {
-                    m.insert(match mode {
-                        "osu" => GameMod::HalfTimeOsu(gm::HalfTimeOsu { speed_change: sc, ..Default::default() }),
-                        "taiko" => GameMod::HalfTimeTaiko(gm::HalfTimeTaiko { speed_change: sc, ..Default::default() }),
-                        "catch" => GameMod::HalfTimeCatch(gm::HalfTimeCatch { speed_change: sc, ..Default::default() }),
-                        _ => GameMod::HalfTimeMania(gm::HalfTimeMania { speed_change: sc, ..Default::default() }),
-                    });
-                }
+                m.insert(match (r >= 1.0, core, mode) {
+                    (true, false, "osu") => GameMod::DoubleTimeOsu(gm::DoubleTimeOsu { speed_change: sc, ..Default::default() }),
+                    (true, false, "taiko") => GameMod::DoubleTimeTaiko(gm::DoubleTimeTaiko { speed_change: sc, ..Default::default() }),
+                    (true, false, "catch") => GameMod::DoubleTimeCatch(gm::DoubleTimeCatch { speed_change: sc, ..Default::default() }),
+                    (true, false, _) => GameMod::DoubleTimeMania(gm::DoubleTimeMania { speed_change: sc, ..Default::default() }),
+                    (true, true, "osu") => GameMod::NightcoreOsu(gm::NightcoreOsu { speed_change: sc, ..Default::default() }),
+                    (true, true, "taiko") => GameMod::NightcoreTaiko(gm::NightcoreTaiko { speed_change: sc, ..Default::default() }),
+                    (true, true, "catch") => GameMod::NightcoreCatch(gm::NightcoreCatch { speed_change: sc, ..Default::default() }),
+                    (true, true, _) => GameMod::NightcoreMania(gm::NightcoreMania { speed_change: sc, ..Default::default() }),
+                    (false, false, "osu") => GameMod::HalfTimeOsu(gm::HalfTimeOsu { speed_change: sc, ..Default::default() }),
+                    (false, false, "taiko") => GameMod::HalfTimeTaiko(gm::HalfTimeTaiko { speed_change: sc, ..Default::default() }),
+                    (false, false, "catch") => GameMod::HalfTimeCatch(gm::HalfTimeCatch { speed_change: sc, ..Default::default() }),
+                    (false, false, _) => GameMod::HalfTimeMania(gm::HalfTimeMania { speed_change: sc, ..Default::default() }),
+                    (false, true, "osu") => GameMod::DaycoreOsu(gm::DaycoreOsu { speed_change: sc, ..Default::default() }),
+                    (false, true, "taiko") => GameMod::DaycoreTaiko(gm::DaycoreTaiko { speed_change: sc, ..Default::default() }),
+                    (false, true, "catch") => GameMod::DaycoreCatch(gm::DaycoreCatch { speed_change: sc, ..Default::default() }),
+                    (false, true, _) => GameMod::DaycoreMania(gm::DaycoreMania { speed_change: sc, ..Default::default() }),
+                });
                 m
             };
             extra += 1;
@@ -268,7 +272,7 @@ pub fn main(args: &[String]) -> i32 {
                 format!("{:?}|{:?}|{:?}", d.calculate(map), d.strains(map), Performance::new(map).difficulty(d.clone()).accuracy(97.0).calculate())
             });
             if a != b {
-                mism.push(json!({"what": "rate_mod_vs_clock_rate", "mode": mode, "rate": r, "osu_text": text,
+                mism.push(json!({"what": "rate_mod_vs_clock_rate", "mode": mode, "rate": r, "nightcore_or_daycore": core, "osu_text": text,
                     "expected": format!("{b:?}").chars().take(500).collect::<String>(), "observed": format!("{a:?}").chars().take(500).collect::<String>()}));
             }
         }
